@@ -121,7 +121,7 @@ def run(ctx):
     ncoq = 36 if ctx.quick() else 400          # graphs whose every probe is also evaluated inside Coq
     recs = ctx.jsonl([hx, "-seed", str(ctx.seed), "-n", str(ngraphs)], timeout=840)
     graphs = [r for r in recs if r["kind"] == "graph"]
-    nnested = len([r for r in recs if r["kind"] == "nested"])
+    nnested = len([r for r in recs if r["kind"] in ("nested", "multi")])
     ctx.log("harness: %d graphs, %d probes, %d child failures" % (
         len(graphs), sum(len(g["probes"] or []) for g in graphs), len(recs) - len(graphs) - nnested))
     dist = {}
@@ -131,7 +131,18 @@ def run(ctx):
 
     # ---- a module that finishes while the owner of a captured variable is still running
     nested = [r for r in recs if r["kind"] == "nested"]
-    recs = [r for r in recs if r["kind"] != "nested"]
+    multi = [r for r in recs if r["kind"] == "multi"]
+    recs = [r for r in recs if r["kind"] not in ("nested", "multi")]
+    for r in multi:
+        count("multi:" + r["name"].split(":")[0])
+        if r.get("err"):
+            ctx.broken("harness:C04 multi-module", "%s: %s" % (r["name"], r["err"]))
+        elif r.get("call_accepted") or r.get("go_mutable"):
+            ctx.finding("captured-value-not-frozen:%s" % ":".join(r["name"].split(":")[:2]),
+                        "%s: the value captured by the closure kept in the last module's global accepted a mutation (through the closure: %s, through the Go API: %s); it is now %s" % (r["name"], r.get("call_accepted"), r.get("go_mutable"), r.get("seen")),
+                        {"modules": r["srcs"], "how": "harness/internal/graphs/multi.go variant %s; predeclared freeze(v) calls v.Freeze(), run_b(f) executes b.star with predeclared f, user.star gets make from lib.star's globals" % r["name"]})
+    if not multi:
+        ctx.broken("harness:C04 multi-module", "the multi-module scenarios did not run")
     for r in nested:
         count("nested:%s:%s" % ("rebind" if r["rebind"] else "no-rebind", "kept-by-owner" if r["keep_in_a"] else "not-kept"))
         if r.get("err_a"):
